@@ -122,6 +122,7 @@ class Loop:
     cond: tuple = None
     init: dict = field(default_factory=dict)
     as_lc: dict = field(default_factory=dict)   # accumulators recognised as list comprehensions
+    carried: dict = field(default_factory=dict) # name -> (value before the loop, value at the end of one iteration)
 
 
 @dataclass
@@ -258,11 +259,17 @@ class Executor:
                 env[args.kwarg.arg] = binding.get(args.kwarg.arg, ('p', '**' + args.kwarg.arg))
             for nm, val in binding.get('__free__', ()):
                 env.setdefault(nm, val)
+            is_gen = binding.get('__inlined__') and not any(d in ('contextlib.contextmanager',) for d in func.decorators) \
+                and any(isinstance(n, (ast.Yield, ast.YieldFrom)) for n in ast.walk(func.node))
+            if is_gen:
+                env[YIELDED] = ('list', ())
             end = run.block(func.node.body, st)
             rets = list(run.returns)
             if end.dead is None:
                 rets.append((end.guard, NONE))
             ret = T.mk_phi(rets)
+            if is_gen:
+                ret = end.env.get(YIELDED, ('list', ()))      # the generator object stands for the sequence it yields
             normal = T.mk_or([g for g, _ in rets]) if any(e.kind == 'raise' for e in run.events) \
                 else TRUE
             summ = Summary(func, run.events, ret, end.env, dict(self.loops), binding, normal)
@@ -271,6 +278,9 @@ class Executor:
         if mkey is not None:
             self._memo[mkey] = summ
         return summ
+
+
+YIELDED = '__yielded__'
 
 
 class _Run:
@@ -287,6 +297,7 @@ class _Run:
         self.withstack: list = []
         self.trystack: list = []
         self.cvdepth = 0
+        self.continue_states: list = []
         self.declared_global: set = set()
 
     # ------------------------------------------------------------------ events
@@ -326,7 +337,10 @@ class _Run:
         v = s.value
         if isinstance(v, ast.Constant):
             return st  # docstring
-        if isinstance(v, (ast.Yield, ast.YieldFrom)):
+        if isinstance(v, ast.Yield):
+            self.ev_Yield(v, st)
+            return st
+        if isinstance(v, ast.YieldFrom):
             val = self.ev(v.value, st) if v.value is not None else NONE
             self.emit('yield', s, st, value=val)
             return st
@@ -407,6 +421,8 @@ class _Run:
             return
         if isinstance(tgt, (ast.Tuple, ast.List)):
             n = len(tgt.elts)
+            if tag(v) == 'record' and len(v[2]) == n and not any(isinstance(e, ast.Starred) for e in tgt.elts):
+                v = ('tuple', tuple(x for _, x in v[2]))
             if tag(v) in ('tuple', 'list') and len(v[1]) == n and \
                     not any(isinstance(e, ast.Starred) for e in tgt.elts):
                 for e, x in zip(tgt.elts, v[1]):
@@ -495,6 +511,9 @@ class _Run:
 
     def st_Continue(self, s, st):
         st.dead = 'continue'
+        if self.continue_states:
+            # the values the variables have where the iteration is cut short flow into the next iteration
+            self.continue_states[-1].append(State(dict(st.env), st.guard, None))
         return st
 
     def st_Break(self, s, st):
@@ -562,6 +581,12 @@ class _Run:
         loop = Loop(lid, kind, it, s, self.func)
         self.ex.loops[lid] = loop
         assigned = _assigned_names(s.body) | (_assigned_names([s]) if kind == 'for' else set())
+        # local functions called in the body may update enclosing locals in place
+        for n in [x for b in s.body for x in ast.walk(b)]:
+            if isinstance(n, ast.Call) and isinstance(n.func, ast.Name):
+                nf = self.p.funcs.get(f'{self.func.qname}.<locals>.{n.func.id}')
+                if nf is not None:
+                    assigned |= _assigned_names(nf.node.body) - _bound_names(nf.node.body) - set(nf.params)
         body_st = st.fork()
         init = {}
         for nm in assigned:
@@ -570,21 +595,17 @@ class _Run:
                 body_st.env[nm] = ('lphi', lid, nm)
         loop.init = init
         self.loopstack.append(lid)
+        self.continue_states.append([])
         try:
             if kind == 'for':
-                if tag(it) == 'lc' and it[1] in ('list', 'gen') and len(it[3]) == 1 and tag(it[2]) == 'cv' \
-                        and it[2][2] == '0' and it[3][0][1] and isinstance(s.target, ast.Name):
-                    # for x in [y for y in ys if c(y)]: ...  ==  for x in ys: if c(x): ...
-                    base, conds = it[3][0]
-                    loop.iter = it = base
-                    self._bind_loop_target(s.target, it, lid, body_st, s)
-                    cvar = None
-                    for c in conds:
-                        for x in T.walk(c):
-                            if tag(x) == 'cv' and x[2] == '0':
-                                cvar = x
-                    mapping = {cvar: ('lv', lid, 'elem')} if cvar is not None else {}
-                    body_st.guard = T.mk_and([body_st.guard] + [_truth(T.subst(c, mapping)) for c in conds])
+                fused = self._fuse_iteration(it, lid)
+                if fused is not None:
+                    # comprehension / zip / enumerate layers around one base iterable: iterate the base, map the element
+                    base, lkind, value, conds = fused
+                    loop.iter, loop.kind = base, lkind
+                    self.assign(s.target, value, body_st, s)
+                    if conds:
+                        body_st.guard = T.mk_and([body_st.guard] + [_truth(c) for c in conds])
                 else:
                     self._bind_loop_target(s.target, it, lid, body_st, s)
             else:
@@ -595,10 +616,20 @@ class _Run:
             end = self.block(s.body, body_st)
         finally:
             self.loopstack.pop()
+            cont = self.continue_states.pop()
+        if cont:
+            # end of an iteration = normal end of the body or any `continue`
+            ends = ([end] if end.dead is None else []) + cont
+            env = {}
+            for k in set().union(*[set(e.env) for e in ends]):
+                vals = [(e.guard, e.env.get(k, ('unk', 'undef'))) for e in ends]
+                env[k] = vals[0][1] if all(v == vals[0][1] for _, v in vals) else T.mk_phi(vals)
+            end = State(env, T.mk_or([e.guard for e in ends]), None)
         out = st.fork()
         for nm in assigned:
             if nm in end.env:
                 val = end.env[nm]
+                loop.carried[nm] = (init.get(nm, ('unk', 'undef')), val)
                 if nm in init and val == ('lphi', lid, nm):
                     out.env[nm] = init[nm]
                     continue
@@ -659,6 +690,79 @@ class _Run:
                 for i in range(len(s.target.elts)):
                     mapping[('lv', lid, f'elem{i}')] = ('cv', d, f'0.{i}')
         return ('lc', 'list', T.subst(elem, mapping), ((it, tuple(T.subst(c, mapping) for c in conds)),))
+
+    def _fuse_iteration(self, it, lid):
+        """for x in [f(y) for y in ys if c(y)] / enumerate(that) / zip(ys, [f(y) for y in ys], ...) all visit the
+        elements of ONE base iterable; returns (base, kind, value bound to the loop target, conditions) or None when
+        `it` is not such a shape (or is a plain iterable, handled by _bind_loop_target)."""
+        it = _zip_range_as_enumerate(it)
+        elem, idx = ('lv', lid, 'elem'), ('lv', lid, 'idx')
+
+        def as_map(t):
+            """(base, f, conds_f) with t == [f(b) for b in base if conds(b)]"""
+            t = T.peel(t) if tag(t) != 'lc' else t
+            if tag(t) == 'lc' and t[1] in ('list', 'gen') and len(t[3]) == 1:
+                gen_it, conds = t[3][0]
+                cvs = [x for x in T.walk(t[2]) if tag(x) == 'cv'] + [x for c in conds for x in T.walk(c) if tag(x) == 'cv']
+                own = [x for x in cvs if x[2] == '0' or x[2].startswith('0.')]
+                if any(x[2] != '0' for x in own):
+                    return None                     # tuple / enumerate targets inside the comprehension
+                d = min((x[1] for x in own), default=None)
+                inner = as_map(gen_it)
+                if inner is None:
+                    return None
+                base, g, gconds = inner
+
+                def f(e, t=t, d=d, g=g):
+                    return T.subst(t[2], {('cv', d, '0'): g(e)}) if d is not None else t[2]
+
+                def fc(e, conds=conds, d=d, g=g, gconds=gconds):
+                    return list(gconds(e)) + [T.subst(c, {('cv', d, '0'): g(e)}) if d is not None else c for c in conds]
+                return base, f, fc
+            return t, (lambda e: e), (lambda e: [])
+
+        def plain(t):
+            return tag(t) != 'lc'
+        if tag(it) == 'call' and it[1] == ('g', 'builtins.enumerate') and it[2] and not it[3]:
+            inner = it[2][0]
+            if tag(inner) == 'call' and inner[1] == ('g', 'builtins.zip') and not inner[3]:
+                z = self._fuse_zip(inner, as_map, elem)
+                if z is None:
+                    return None
+                base, value, conds = z
+                return base, 'enumerate', ('tuple', (idx, value)), conds
+            if plain(inner):
+                return None
+            m = as_map(inner)
+            if m is None:
+                return None
+            base, f, fc = m
+            return base, 'enumerate', ('tuple', (idx, f(elem))), fc(elem)
+        if tag(it) == 'call' and it[1] == ('g', 'builtins.zip') and not it[3] and len(it[2]) >= 2:
+            z = self._fuse_zip(it, as_map, elem)
+            if z is None:
+                return None
+            base, value, conds = z
+            return base, 'for', value, conds
+        if tag(it) == 'lc':
+            m = as_map(it)
+            if m is None:
+                return None
+            base, f, fc = m
+            return base, 'for', f(elem), fc(elem)
+        return None
+
+    def _fuse_zip(self, z, as_map, elem):
+        maps = [as_map(a) for a in z[2]]
+        if any(m is None for m in maps):
+            return None
+        bases = {T.key(m[0]) for m in maps}
+        if len(bases) != 1 or all(tag(a) != 'lc' for a in z[2]):
+            return None                 # different iterables (or nothing to fuse): generic zip
+        conds = []
+        for m in maps:
+            conds += m[2](elem)
+        return maps[0][0], ('tuple', tuple(m[1](elem) for m in maps)), conds
 
     def _bind_loop_target(self, tgt, it, lid, st, s) -> None:
         it = _zip_range_as_enumerate(it)
@@ -839,6 +943,19 @@ class _Run:
         return self.attr(base, e.attr, e, st)
 
     def attr(self, base, name, node, st):
+        if tag(base) == 'record':
+            for nm, v in base[2]:
+                if nm == name:
+                    return v
+            k = self.p.classes.get(base[1])
+            m = self.p.find_method(k, name) if k is not None else None
+            if m is not None and m.is_property:
+                return self.inline_call(m, {'self': base}, node, st, is_prop=True)
+            if m is not None:
+                return ('bound', base, m.qname)
+            return ('attr', base, name)
+        if tag(base) == 'phi' and all(tag(v) == 'record' for _, v in base[1]):
+            return T.mk_phi([(g, self.attr(v, name, node, st)) for g, v in base[1]])
         if tag(base) == 'g':
             if self._is_data_global(base[1]):
                 return T.mk_attr(base, name)      # attribute / method of a module-level data object
@@ -1028,7 +1145,11 @@ class _Run:
         return self._comp(e, st, 'dict', [e.key, e.value])
 
     def ev_Yield(self, e, st):
-        self.emit('yield', e, st, value=self.ev(e.value, st) if e.value else NONE)
+        v = self.ev(e.value, st) if e.value else NONE
+        self.emit('yield', e, st, value=v)
+        if YIELDED in st.env:
+            # a generator expanded at its call site: what it yields, in order, is the list it stands for
+            st.env[YIELDED] = ('mcall', st.env[YIELDED], 'append', (v,), ())
         return ('unk', 'yield')
 
     def ev_Await(self, e, st):
@@ -1085,6 +1206,9 @@ class _Run:
         if tg == 'g' and fn[1] in ('builtins.list',) and len(args) == 1 and not kws and tag(args[0]) == 'lc' \
                 and args[0][1] == 'list':
             return args[0]
+        if tg == 'g' and fn[1] in ('builtins.list',) and len(args) == 1 and not kws and tag(args[0]) == 'loopres' \
+                and args[0][2] == YIELDED:
+            return args[0]              # list(generator()) with the generator expanded
         if tg == 'g' and fn[1] in ('numpy.logical_and', 'numpy.logical_or') and len(args) == 2 and not kws:
             return T.mk_bin('&' if fn[1].endswith('and') else '|', _truthy_array(args[0]), _truthy_array(args[1]))
         if tg == 'g' and fn[1] == 'numpy.logical_not' and len(args) == 1 and not kws:
@@ -1114,6 +1238,20 @@ class _Run:
             if q in self.p.funcs:
                 f = self.p.funcs[q]
                 return self.call_func(f, None, args, kws, node, st)
+            if q in self.p.classes and _record_fields(self.p, self.p.classes[q]) is not None \
+                    and not any(tag(a) == 'star' for a in args) and not any(k is None for k, _ in kws):
+                # NamedTuple / dataclass: a record of its fields (so that values travelling through one are seen)
+                fields = _record_fields(self.p, self.p.classes[q])
+                vals = {}
+                for (nm, dflt), a in zip(fields, args):
+                    vals[nm] = a
+                for k_, v_ in kws:
+                    vals[k_] = v_
+                for nm, dflt in fields:
+                    if nm not in vals:
+                        vals[nm] = self.ev(dflt, State({})) if dflt is not None else ('unk', f'field:{nm}')
+                self.emit('call', node, st, call=('call', fn, args, kws))
+                return ('record', q, tuple((nm, vals[nm]) for nm, _ in fields))
             if q in self.p.classes:
                 k = self.p.classes[q]
                 inst = ('new', q, f'{self.func.qname}:{getattr(node, "lineno", 0)}')
@@ -1177,7 +1315,7 @@ class _Run:
         # a local function called by the function that defines it is expanded in place, its free variables bound
         # to the current values of the enclosing locals (unless it rebinds them: nonlocal)
         closure = is_nested and f.parent is self.func and self.depth < self.ex.max_depth and \
-            not any(isinstance(n, (ast.Nonlocal, ast.Global, ast.Yield, ast.YieldFrom)) for n in ast.walk(f.node))
+            not any(isinstance(n, (ast.Nonlocal, ast.Global, ast.YieldFrom)) for n in ast.walk(f.node))
         do_inline = closure or ((not is_nested) and self.depth < self.ex.max_depth and
                                 self.ex.inline(f.qname, self.depth))
         self.emit('call', node, st, call=t, inlined=do_inline)
@@ -1197,6 +1335,13 @@ class _Run:
         self.embed(summ, node, st)
         if summ.normal != TRUE:
             st.guard = T.mk_and([st.guard, summ.normal])
+        if closure:
+            # in-place updates of enclosing locals made by the local function (x[k] = v, x.append(..)) are updates of
+            # the caller's variables
+            for nm, old_val in binding.get('__free__', ()):
+                new_val = summ.env.get(nm)
+                if new_val is not None and new_val != old_val and nm in st.env:
+                    st.env[nm] = new_val
         if f.name == '__init__':
             return recv
         return summ.ret
@@ -1276,6 +1421,9 @@ def _truth(c):
     """A term used as a condition."""
     if T.is_const(c):
         return TRUE if c[1] else FALSE
+    if tag(c) == 'phi' and all((T.is_const(v) and isinstance(v[1], bool)) or T.boolish(v) for _, v in c[1]):
+        # a flag set on some paths and cleared on others: true exactly under the conditions of the paths that set it
+        return T.mk_or([T.mk_and([g, _truth(v)]) for g, v in c[1]])
     return c
 
 
@@ -1290,6 +1438,8 @@ def _assigned_names(stmts) -> set:
     out = set()
     for s in stmts:
         for n in ast.walk(s):
+            if isinstance(n, (ast.Yield, ast.YieldFrom)):
+                out.add(YIELDED)
             if isinstance(n, ast.Name) and isinstance(n.ctx, (ast.Store, ast.Del)):
                 out.add(n.id)
             elif isinstance(n, (ast.FunctionDef, ast.ClassDef)) and n is not s:
@@ -1304,6 +1454,25 @@ def _assigned_names(stmts) -> set:
                 b = _store_base(n)
                 if isinstance(b, ast.Name):
                     out.add(b.id)
+    return out
+
+
+_RECORD_CACHE: dict = {}
+
+
+def _record_fields(project, k):
+    """[(field name, default ast or None)] of a typing.NamedTuple subclass or a dataclass, else None."""
+    key = (id(project), k.qname)
+    if key in _RECORD_CACHE:
+        return _RECORD_CACHE[key]
+    is_nt = any(b in ('typing.NamedTuple', 'NamedTuple') for b in k.bases)
+    is_dc = any(isinstance(d, (ast.Name, ast.Attribute, ast.Call)) and 'dataclass' in ast.unparse(d)
+                for d in k.node.decorator_list)
+    out = None
+    if (is_nt or is_dc) and '__init__' not in k.methods and '__new__' not in k.methods and '__post_init__' not in k.methods:
+        out = [(s.target.id, s.value) for s in k.node.body
+               if isinstance(s, ast.AnnAssign) and isinstance(s.target, ast.Name)]
+    _RECORD_CACHE[key] = out
     return out
 
 
